@@ -33,7 +33,7 @@ var c14Docs = []string{"authn", "logout", "tiny", "non-ascii"}
 var c14URLs = []string{"https://idp.example.com/sso", "https://idp.example.com/sso?x=1", "https://idp.example.com/sso?x=1&y=a%20b&x=2", "https://idp.example.com/a%20path/sso", "https://idp.example.com/sso?empty=&flag"}
 var c14Funcs = []string{"BuildAuthURL", "BuildAuthURLFromDocument", "BuildAuthURLRedirect", "BuildLogoutURLRedirect", "AuthRedirect"}
 var c14Algs = []string{"", dsig.RSASHA1SignatureMethod, dsig.RSASHA512SignatureMethod, dsig.ECDSASHA256SignatureMethod}
-var c14Keys = []string{"field", "setter", "separate-signing-field", "separate-signing-setter"}
+var c14Keys = []string{"field", "setter", "separate-signing-field", "separate-signing-setter", "ecdsa-signing-setter"}
 
 type c14Case struct {
 	Relay int  `json:"relay"`
@@ -64,7 +64,7 @@ func c14SP(c c14Case) (*saml2.SAMLServiceProvider, string) {
 		sp.SetSPSigningKeyStore(world.SetterKeyStore("K1"))
 		signer = "K1"
 	}
-	if c14Algs[c.Alg] == dsig.ECDSASHA256SignatureMethod {
+	if c14Algs[c.Alg] == dsig.ECDSASHA256SignatureMethod || c14Keys[c.Keys] == "ecdsa-signing-setter" {
 		sp.SetSPSigningKeyStore(world.SetterKeyStore("KE"))
 		signer = "KE"
 	}
@@ -221,12 +221,24 @@ func c14Exec(c c14Case) (keys []string, detail, class string) {
 			return dedupe(keys), detail, "DIFFERS"
 		}
 		alg, _ := recipient.PctDecode(raw["SigAlg"][0])
+		// the configured algorithm is honoured when it fits the key type; otherwise (unset, or an
+		// RSA identifier with an EC key) the library's default hash is used with the key's own
+		// algorithm family. Either way SigAlg must name the algorithm the signature verifies under.
+		ecKey := signer == "KE"
 		wantAlg := c14Algs[c.Alg]
-		if wantAlg == "" {
+		switch {
+		case wantAlg == "" && ecKey:
+			wantAlg = dsig.ECDSASHA256SignatureMethod
+		case wantAlg == "":
 			wantAlg = dsig.RSASHA256SignatureMethod
+		case ecKey != strings.Contains(wantAlg, "ecdsa"):
+			wantAlg = "" // incompatible configuration: only consistency is required
 		}
-		if alg != wantAlg {
+		if wantAlg != "" && alg != wantAlg {
 			bad("SigAlg-differs-from-configured", "SigAlg %q want %q", alg, wantAlg)
+		}
+		if ecKey != strings.Contains(alg, "ecdsa") {
+			bad("SigAlg-names-another-key-family-than-the-signing-key", "SigAlg %q with EC key=%v", alg, ecKey)
 		}
 		signed := "SAMLRequest=" + raw["SAMLRequest"][0]
 		if len(raw["RelayState"]) == 1 {
@@ -250,10 +262,10 @@ func c14Exec(c c14Case) (keys []string, detail, class string) {
 		var h crypto.Hash
 		var digest []byte
 		switch alg {
-		case dsig.RSASHA1SignatureMethod:
+		case dsig.RSASHA1SignatureMethod, dsig.ECDSASHA1SignatureMethod:
 			d := sha1.Sum([]byte(signed))
 			h, digest = crypto.SHA1, d[:]
-		case dsig.RSASHA512SignatureMethod:
+		case dsig.RSASHA512SignatureMethod, dsig.ECDSASHA512SignatureMethod:
 			d := sha512.Sum512([]byte(signed))
 			h, digest = crypto.SHA512, d[:]
 		default:
@@ -292,7 +304,7 @@ func c14Replay(raw json.RawMessage) ([]string, string) {
 }
 
 func c14Run(r *mc.Run) {
-	r.Rule = "full product relay state(22) x document(4) x IdP URL(5: no query, one parameter, repeated and escaped parameters, escaped path, empty-valued and valueless parameters) x function(5) x SignAuthnRequests(2) x algorithm(4: unset, rsa-sha1, rsa-sha512, ecdsa-sha256) x key configuration(4); oracle = hand-split raw query (no net/url), strict percent-decoding, base64 + raw inflate, PKCS#1 v1.5 / ECDSA verification with the reported certificate over SAMLRequest=..[&RelayState=..]&SigAlg=.. assembled from the raw values as they appear. non-trivial = a URL was produced and decoded; distinct = distinct case"
+	r.Rule = "full product relay state(22) x document(4) x IdP URL(5: no query, one parameter, repeated and escaped parameters, escaped path, empty-valued and valueless parameters) x function(5) x SignAuthnRequests(2) x algorithm(4: unset, rsa-sha1, rsa-sha512, ecdsa-sha256) x key configuration(5, incl. a P-256 signing key with every algorithm setting); oracle = hand-split raw query (no net/url), strict percent-decoding, base64 + raw inflate, PKCS#1 v1.5 / ECDSA verification with the reported certificate over SAMLRequest=..[&RelayState=..]&SigAlg=.. assembled from the raw values as they appear. non-trivial = a URL was produced and decoded; distinct = distinct case"
 	var cases []c14Case
 	mc.Enumerate(-1, r.Expired, func(ch *mc.Chooser) {
 		c := c14Case{}
